@@ -283,8 +283,35 @@ def _zip(repo, rep):
               detail=str([src(z) for z in zips]))
     if len(zips) != 1:
         return
-    za, zb = [src(a) for a in zips[0].args]
     params = [a.arg for a in pa.node.args.args]
+
+    def origin_params(arg):
+        """the parameters a zip argument is (derived from): itself, or for a
+        local every parameter its definitions are computed from"""
+        if src(arg) in params:
+            return [src(arg)]
+        found = []
+        if isinstance(arg, ast.Name):
+            for n in ast.walk(pa.node):
+                if isinstance(n, ast.Assign) and any(
+                        src(t) == arg.id for t in n.targets):
+                    for x in ast.walk(n.value):
+                        if isinstance(x, ast.Name) and x.id in params and \
+                                x.id not in found:
+                            found.append(x.id)
+        else:
+            for x in ast.walk(arg):
+                if isinstance(x, ast.Name) and x.id in params and \
+                        x.id not in found:
+                    found.append(x.id)
+        return found
+    oa_, ob_ = [origin_params(a) for a in zips[0].args]
+    cands = [(a, b) for a in oa_ for b in ob_ if a != b and
+             {a, b} <= {params[0], params[3]}]
+    if not cands:
+        # both sides come from the attribute list itself
+        return _own_namespace(repo, rep, pa)
+    za, zb = cands[0]
     ia, ib = params.index(za), params.index(zb)
     # no mutation of either before the zip inside prepare_attributes
     eff = _param_effects(pa, [za, zb])
@@ -646,6 +673,63 @@ def _nsstack(repo, rep):
               construct="unexpected-end", where=wh)
 
 
+def _implied(test, truth):
+    """atoms (text, truth) that hold when ``test`` evaluates to ``truth``"""
+    if isinstance(test, ast.BoolOp):
+        if isinstance(test.op, ast.And) == truth:
+            out = []
+            for v in test.values:
+                out.extend(_implied(v, truth))
+            return out
+        return []
+    if isinstance(test, ast.UnaryOp) and isinstance(test.op, ast.Not):
+        return _implied(test.operand, not truth)
+    if isinstance(test, ast.Compare) and len(test.ops) == 1 and \
+            isinstance(test.ops[0], ast.NotIn):
+        return [("%s in %s" % (src(test.left), src(test.comparators[0])),
+                 not truth)]
+    return [(src(test), truth)]
+
+
+def _element_omission(repo, ve):
+    """Walk what visit_element returns, keeping track of whether the branch
+    taken establishes "start['namespace'] in self.DROP_NS" as false.
+    -> (lines of Element nodes reached without it, number of Element nodes)"""
+    res = L.emission(repo, ve.qualname)
+    atom = "start['namespace'] in self.DROP_NS"
+    memo = set()
+    bad, count = [], [0]
+
+    def known(test_text, truth):
+        try:
+            t = ast.parse(test_text, mode="eval").body
+        except SyntaxError:
+            return None
+        t = L.inline_locals(ve.node, t)
+        for text, tr in _implied(t, truth):
+            if text.replace('"', "'") == atom:
+                return not tr
+        return None
+
+    def rec(v, ok):
+        if (id(v), ok) in memo:
+            return
+        memo.add((id(v), ok))
+        if isinstance(v, A.Alt):
+            for branch, truth in ((v.a, True), (v.b, False)):
+                k = known(v.test, truth)
+                rec(branch, ok if k is None else k)
+            return
+        if isinstance(v, A.NodeV) and v.kind == "Element":
+            count[0] += 1
+            if not ok:
+                bad.append(getattr(v, "lineno", 0))
+        for _, k in v.kids():
+            rec(k, ok)
+    rec(res.value, False)
+    return sorted(set(bad)), count[0]
+
+
 def _tables(repo, rep):
     mp = repo.cls(MP[:-1])
     drop = mp.attrs.get("DROP_NS")
@@ -673,13 +757,15 @@ def _tables(repo, rep):
               "chameleon.namespaces", "the namespace URIs are distinct",
               construct="uris-distinct")
     ve = repo.func(MP + "visit_element")
-    tests = [n for n in ast.walk(ve.node) if isinstance(n, ast.Compare)
-             and src(n.left) == "start['namespace']"
-             and "self.DROP_NS" in src(n)]
-    rep.check(len(tests) >= 2, "R18.4", ve.qualname, "the element's own tag "
-              "is omitted iff its namespace is in the drop set (element and "
-              "on-error fallback)", construct="element-omission",
-              where=L.where(ve), detail=str([src(t) for t in tests]))
+    unguarded, n_el = _element_omission(repo, ve)
+    rep.check(n_el >= 2 and not unguarded, "R18.4", ve.qualname,
+              "every Element node the element is built into (the element "
+              "itself and its on-error fallback) is built only where the "
+              "element's namespace is known not to be in the drop set -- "
+              "whatever tal:omit-tag says", construct="element-omission",
+              where=L.where(ve, unguarded[0] if unguarded else None),
+              detail="Element nodes: %d; reached without the test at "
+                     "line(s) %s" % (n_el, unguarded))
     calls = [src(n) for n in ast.walk(ve.node) if isinstance(n, ast.Call)
              and src(n.func) == "validate_attributes"]
     rep.check(sorted(calls) == sorted([
